@@ -37,6 +37,9 @@ def draw_spec(ch, prefix="gen"):
         "dt": [0.25, 0.5, 1.0, 0.125][ch.choose(f"{prefix}.dt", 4)],
         "years": 4 + ch.choose(f"{prefix}.years", 6),
         "scale": [1.0, 0.5, 2.0][ch.choose(f"{prefix}.scale", 3)],
+        # a second parameter on the infection transition whose code name CONTAINS the first one's ("foi" / "foi_imp"),
+        # listed before or after it in the cell
+        "double_link": ["none", "short_first", "long_first"][ch.choose(f"{prefix}.double_link", 3)],
     }
     if spec["npops"] == 1:
         spec["transfer"] = False
@@ -79,7 +82,7 @@ def framework_workbook(spec):
     T = {a: {b: None for b in names} for a in names}
     if spec["source"]:
         T["src"]["s1"] = "b_rate"
-    T["s1"]["s2"] = "foi"
+    T["s1"]["s2"] = {"none": "foi", "short_first": "foi, foi_imp", "long_first": "foi_imp, foi"}[spec.get("double_link", "none")]
     if spec["junction"] != "none":
         T["s2"]["jn"] = "p_triage"
         T["jn"]["s3"] = "prop_tx"
@@ -125,6 +128,8 @@ def framework_workbook(spec):
         P.append(["foi", "Force of infection", "probability", None, None, 0, lim_hi, fcn, "n", None, None])
     else:
         P.append(["foi", "Force of infection", "probability", ts, None, 0, None, None, "y", "flows", None])
+    if spec.get("double_link", "none") != "none":
+        P.append(["foi_imp", "Infections acquired abroad", "probability", None, None, 0, None, None, "n", "flows", None])
     P.append(["p_triage", "Diagnosis", "rate", ts, None, 0, None, None, "y", "flows", None])
     if spec["junction"] != "none":
         P.append(["prop_tx", "Proportion treated", "proportion", None, None, 0, 1, None, "y", "flows", None])
@@ -206,7 +211,7 @@ def build_project(spec, name="generated"):
     values = {
         "s1": 1000.0, "s2": 100.0, "s3": 50.0, "tm": 40.0,
         "b_rate": 30.0, "beta": 0.3, "foi": 0.05, "p_triage": 0.4, "prop_tx": 0.7, "prop_jvac": 0.15, "dur_tx": 2.0,
-        "p_vac": 0.1, "dur_vac": spec["timed_duration"], "p_break": 0.05, "mort": 0.02, "mort_inf": 3.0,
+        "p_vac": 0.1, "dur_vac": spec["timed_duration"], "p_break": 0.05, "mort": 0.02, "mort_inf": 3.0, "foi_imp": 0.004,
     }
     trends = {"beta": -0.3, "p_triage": 0.5, "b_rate": 0.2, "prop_tx": 0.2, "foi": -0.2, "mort_inf": -0.3}
     k = 0
